@@ -80,7 +80,7 @@ for name in sorted(os.listdir(SEEDED)):
 assert not sh("git -C /repo status --porcelain --untracked-files=no").stdout.strip()
 if not only:
     with open(os.path.join(SEEDED, "RESULTS.md"), "w") as f:
-        f.write(f"# Seeded changes vs `./check C10 {tier}` (default seed)\n\nGenerated by tools/run_seeded.py; each patch applied to /repo (a private clone when run through tools/iso.sh), check run, /repo restored. A change expected to violate the property is first tried against the main build configuration alone; if that reports, the column 'build variants reporting' says only 'main' and the other configurations were not run (meta.json: verif_result.stage). Changes under which the property holds always get the full registered command.\n\n")
+        f.write(f"# Seeded changes vs `./check C10 {tier}` (default seed)\n\nGenerated by tools/run_seeded.py; each patch applied to /repo (a private clone when run through tools/iso.sh), check run, /repo restored. A change expected to violate the property is first tried against the main build configuration alone; if that reports, the column 'build variants reporting' says only 'main' and the other configurations were not run (meta.json: verif_result.stage). Changes under which the property holds always get the full registered command (or, in a regression pass with --main-only, the main configuration alone: verif_result.stage says which). A row whose verif_result has no 'stage' field was last tried before that field existed: earlier in the last session (agent35-agent44, own21) or in previous sessions (agent18-agent34 except 20, 22, 27, 28, 33; own18-own20), against builds of the harness to which oracles and fault kinds have only been added since.\n\n")
         f.write("| id | kind | verdict | first check id | first failing run | build variants reporting | needs, in order to manifest |\n|---|---|---|---|---|---|---|\n")
         for r in rows:
             f.write("| " + " | ".join(str(x).replace("|", "/") for x in r) + " |\n")
